@@ -242,6 +242,13 @@ let () = iter_lines (fun line ->
         | TrApp14 n -> Printf.sprintf "TrApp14:%d" (int_of_z n)
         | TrMisc (c, n) -> Printf.sprintf "TrMisc:%d,%d" (int_of_z c) (int_of_z n) in
       print_endline ("tr" ^ String.concat "" (List.concat_map (fun (c, d) -> List.map (fun e -> " " ^ ev e) (trace_marker cfg c d)) (segs_of ms)))
+  | [ "nmscan"; hx ] ->
+      (* next_marker over the header: (discarded_bytes, unread_marker) wherever bytes were discarded *)
+      (match first_marker (unhex hx) with
+       | FOk rest ->
+           print_endline ("x" ^ String.concat "" (List.filter_map (fun (m, d) ->
+               if int_of_z d > 0 then Some (Printf.sprintf " %d:%d" (int_of_z d) (int_of_z m)) else None) (scan_header (nat_of_int 100000) rest)))
+       | _ -> print_endline "err")
   | [ "iccms"; ms ] ->
       (* marker list given directly: code:hex,...  (original_length = data length) *)
       let l = List.map (fun (c, d) -> { sm_code = c; sm_orig = z_of_int (zlen d); sm_data = d }) (segs_of ms) in
